@@ -350,9 +350,9 @@ func genC01(t *rapid.T) C01Case {
 		switch k := rapid.IntRange(0, 26).Draw(t, "opkind"); {
 		case k == 26:
 			// one engine is configured further; any engine then renders the templates that name the addition
-			cfg := rapid.SampledFrom([]string{"g:cfg_a", "g:cfg_b", "f:cfg_fn", "|cfg_filter", "|upper", "f:max"}).Draw(t, "cfg")
+			cfg := rapid.SampledFrom([]string{"g:cfg_a", "g:cfg_b", "f:cfg_fn", "|cfg_filter", "|upper", "f:max", "s:strict", "s:strict"}).Draw(t, "cfg")
 			other := rapid.IntRange(0, len(c.Worlds)-1).Draw(t, "cfgreader")
-			nm := rapid.SampledFrom([]string{"x_cfg", "x_cfg_fn", "x_cfg_filter"}).Draw(t, "cfgname")
+			nm := rapid.SampledFrom([]string{"x_cfg", "x_cfg_fn", "x_cfg_filter", "x_cfg_inc", "x_cfg_inc"}).Draw(t, "cfgname")
 			c.Ops = append(c.Ops, C01Op{Op: "render", Eng: other, Name: nm, Ctx: other}, C01Op{Op: "configure", Eng: eng, Src: cfg},
 				C01Op{Op: "render", Eng: other, Name: nm, Ctx: other}, C01Op{Op: "render", Eng: eng, Name: nm, Ctx: eng})
 			continue
